@@ -2,6 +2,7 @@
 import grp
 import hashlib
 import io
+import itertools
 import os
 import pwd
 import stat
@@ -83,7 +84,12 @@ def groups(tier, seed):
         yield {'kind': 'extclass', 'cls': cls, 'override': True}
     for k in content_lengths(tier):
         yield {'kind': 'content', 'length': k}
-    for bound in (8192, 32768, 65536, 131072):
+    # a value must not depend on the WHERE clause that let the row through, nor on the rows seen before it
+    for ri in range(len(UF_ROOTS)):
+        for mode in ('', 'dfs'):
+            for rd in ('sorted', 'rev'):
+                yield {'kind': 'under-filter', 'roots': ri, 'mode': mode, 'rd': rd}
+    for bound in (8192, 32768, 65536, 131072, 262144, 1048576) + ((524288, 2097152, 4194304) if tier == 'thorough' else ()):
         yield {'kind': 'needle-align', 'bound': bound}
 
 
@@ -104,6 +110,36 @@ def content_lengths(tier):
             ls += [2 ** k - 2, 2 ** k - 1, 2 ** k, 2 ** k + 1, 2 ** k + 2]
         ls += [3 * 8192, 3 * 8192 + 1, 5 * 32768 - 1, 100000, 1000003]
     return sorted(set(ls))
+
+
+UF_ROOTS = [['r0'], ['r1', 'r2', 'r3'], ['r3', 'r2', 'r1'], ['r1', 'r2', 'r3', 'r0'], ['r0', 'r2', 'r3']]
+UF_COLS = [['line_count'], ['sha1'], ['is_shebang', 'line_count'], ['size'], ['hardlinks', 'mode'], ['line_count', 'size'],
+           ['contains(l2)'], ['sha256', 'is_shebang']]
+# (text, predicate over {name, size, nlink, isfile, lines})
+UF_N = [("name = 'b.txt'", lambda e: e['name'] == 'b.txt'), ("name like '%.txt'", lambda e: e['name'].endswith('.txt')),
+        ("ext = 'log'", lambda e: e['name'].endswith('.log'))]
+UF_M = [('size > 1', lambda e: e['size'] > 1), ('hardlinks > 1', lambda e: e['nlink'] > 1), ('is_file = true', lambda e: e['isfile'])]
+UF_C = [('line_count > 1', lambda e: e['isfile'] and e['lines'] > 1)]
+
+
+def uf_tree():
+    r0 = {'a.txt': F(data='one\n'), 'b.txt': F(data='l1\nl2\nl3\n'), 'c.log': {'t': 'f', 'link': 'r0/a.txt'}, 'd.md': F(data='#!/bin/sh\nx\n'),
+          'e.txt': {'t': 'f', 'link': 'r0/b.txt'}, 'f': F(0), 'g.bin': F(data=bytes((i * 11) % 256 for i in range(2000))),
+          'sub': D({'h.txt': {'t': 'f', 'link': 'r0/a.txt'}, 'i.txt': F(data='q\nq\nq\nq\n'), 'j': {'t': 'f', 'link': 'r0/d.md'},
+                    'k.log': F(data='l2 only')})}
+    return {'r0': D(r0), 'r1': D({'a.txt': F(data='x\n')}), 'r2': D({'b.txt': F(data='1\n2\n3\n')}),
+            'r3': D({'c.log': {'t': 'f', 'link': 'r1/a.txt'}})}
+
+
+def uf_filters():
+    out = []
+    for (nt, nf), (mt, mf) in itertools.product(UF_N, UF_M):
+        out += [('%s or %s' % (nt, mt), lambda e, nf=nf, mf=mf: nf(e) or mf(e)), ('%s or %s' % (mt, nt), lambda e, nf=nf, mf=mf: nf(e) or mf(e)),
+                ('%s and %s' % (nt, mt), lambda e, nf=nf, mf=mf: nf(e) and mf(e)), ('%s and %s' % (mt, nt), lambda e, nf=nf, mf=mf: nf(e) and mf(e))]
+    (ct, cf), (nt, nf), (mt, mf) = UF_C[0], UF_N[0], UF_M[0]
+    out += [('%s or %s' % (nt, ct), lambda e: nf(e) or cf(e)), ('%s or (%s and %s)' % (nt, mt, ct), lambda e: nf(e) or (mf(e) and cf(e))),
+            ('(%s or %s) and %s' % (nt, mt, UF_N[1][0]), lambda e: (nf(e) or mf(e)) and UF_N[1][1](e))]
+    return out
 
 
 def row_outcomes(group, rows, expected, cols, outs, layer):
@@ -395,6 +431,50 @@ def eval_group(env, group, tier):
                     except UnicodeDecodeError:
                         e2[n] = rows.get(n, ('',))
                 row_outcomes(dict(group, needle=tag), rows, e2, ['contains'], outs, 'needle-align')
+        elif kind == 'under-filter':
+            core.materialise(root, uf_tree())
+            roots = UF_ROOTS[group['roots']]
+            frm = ', '.join(r + (' ' + group['mode'] if group['mode'] else '') for r in roots)
+            penv = {'FSX_READDIR': group['rd']}
+            ents = {}
+            for r in roots:
+                for dp, dns, fns in os.walk(os.path.join(root, r)):
+                    for n in dns + fns:
+                        p = os.path.join(dp, n)
+                        st = os.lstat(p)
+                        isf = stat.S_ISREG(st.st_mode)
+                        ents[os.path.relpath(p, root)] = {'name': n, 'size': st.st_size, 'nlink': st.st_nlink, 'isfile': isf,
+                                                          'lines': open(p, 'rb').read().count(b'\n') if isf else 0}
+            only = group.get('only')
+            g = {k_: v for k_, v in group.items() if k_ != 'only'}
+            for cols in UF_COLS:
+                def q(where):
+                    o = env.run(['path, ' + ', '.join(cols) + ' from ' + frm + (' where ' + where if where else '') + ' into list'],
+                                cwd=root, env=penv, preload=True)
+                    rows_ = o.rows(len(cols) + 1)
+                    if o.rc != 0 or o.err or rows_ is None:
+                        return None, o
+                    return {r_[0]: tuple(r_[1:]) for r_ in rows_}, o
+                base, o = q(None)
+                if base is None or set(base) != set(ents):
+                    raise core.MachineryError('C04 under-filter base query failed: %r' % (o.brief(),))
+                for wtext, pred in uf_filters():
+                    key = '%s | %s' % (','.join(cols), wtext)
+                    if only is not None and key != only:
+                        continue
+                    got, o = q(wtext)
+                    want = {p: base[p] for p, e in ents.items() if pred(e)}
+                    r = {'case': {'group': g, 'row': key}, 'layer': 'under-filter', 'nt': 0 < len(want) < len(ents), 'trans': len(want) + 1}
+                    if got is None:
+                        r.update(status='viol', cls='under-filter:status', detail=dict(o.brief(), where=wtext), sig=('err',))
+                    elif got != want:
+                        badp = sorted(p for p in set(got) | set(want) if got.get(p) != want.get(p))
+                        r.update(status='viol', cls='under-filter:' + ('rows' if set(got) != set(want) else cols[0]), sig=('uf', cols[0]),
+                                 detail={'from': frm, 'where': wtext, 'columns': cols, 'row': badp[0], 'got': got.get(badp[0]),
+                                         'unfiltered': want.get(badp[0]), 'rd': group['rd']})
+                    else:
+                        r.update(status='ok', sig=('uf', len(want)))
+                    outs.append(r)
         elif kind == 'content':
             k = group['length']
             needle = 'NEEDLE'
